@@ -5,3 +5,20 @@ claim('C18', 'c18_hashes.c',
       'independently structured reference definition and reads only the key bytes (key in an exact-size heap object). All 2^(8n+32) inputs per '
       'length are covered by one query; lengths beyond the bound are covered only for the Jenkins mixing round (separate obligation).',
       'DESIGN.md section 4, C18')
+claim('C13', 'c13_helpers.c',
+      'CBMC bounded check of safe_strncpy/strncat/substr and the in-place helpers against reference transformations; symbolic bytes, exact-size heap objects',
+      'For every size/length shape in range and every byte content (symbolic), the solver shows the helpers write only inside the exact-size '
+      'destination, terminate it, store the longest fitting prefix / the reference transformation, and return the documented value; under- and '
+      'over-runs by one byte are bounds failures because every buffer is allocated at exactly its nominal size.',
+      'DESIGN.md section 4, C13')
+claim('C17', 'c17_version.c',
+      'CBMC bounded check of spiftool_version_compare: determinism (two calls, nondeterministic stack), antisymmetry, reflexivity, buffer safety on long runs, ordering templates',
+      'For all string pairs up to the stated length over a nine-letter alphabet (symbolic bytes) the solver shows compare(a,b) is memory safe, '
+      'gives the same answer twice although its scratch buffers start nondeterministic, and equals -compare(b,a); runs of 127..129 characters '
+      'are checked against the 128-byte buffers; ordering facts are checked on generated well-formed versions with symbolic digits.',
+      'DESIGN.md section 4, C17')
+claim('C12', 'c12_split.c',
+      'CBMC differential check: spiftool_split / tok_eval / num_words / get_word / get_pword / join vs a reference tokenizer, symbolic input bytes in exact-size objects',
+      'For every input up to the stated length over {a,b,space,comma,",\',\\} (symbolic) and both delimiter sets, the token list equals the '
+      'reference grammar\'s, the word utilities agree with the reference word scanner for every index, and no byte past the terminator is read.',
+      'DESIGN.md section 4, C12')
